@@ -28,11 +28,24 @@ def gen_pda(rng, max_states=3, adversarial=None):
         push = [rng.choice(stack) for _ in range(k)]
         delta.append([q, a, x, q2, push])
     finals = [q for q in states if rng.random() < 0.4]
+    # "lazy": nothing is declared to the constructor; states, symbols and marks are registered only by
+    # set_start_state / set_start_stack_symbol / add_final_state / add_transition, in that order - a final
+    # state may then be a state that no transition and no other call mentions
+    lazy = rng.random() < 0.2
     return {"states": states, "inputs": inputs, "stack": stack, "start": states[0], "startStack": stack[0],
-            "finals": finals, "delta": delta}
+            "finals": finals, "delta": delta, "lazy": lazy}
 
 
 def build(spec):
+    if spec.get("lazy"):
+        p = PDA()
+        p.set_start_state(spec["start"])
+        p.set_start_stack_symbol(spec["startStack"])
+        for q in spec["finals"]:
+            p.add_final_state(q)
+        for q, a, x, q2, push in spec["delta"]:
+            p.add_transition(q, PEps() if a is None else a, x, q2, push)
+        return p
     p = PDA(states=set(spec["states"]), input_symbols=set(spec["inputs"]), stack_alphabet=set(spec["stack"]),
             start_state=spec["start"], start_stack_symbol=spec["startStack"], final_states=set(spec["finals"]))
     for q, a, x, q2, push in spec["delta"]:
